@@ -1,0 +1,16 @@
+//go:build verif
+
+package z
+
+// VerifSetPageSize sets the B+ tree page size in bytes (as the tree tests do)
+// and returns the previous one. Only compiled with the "verif" build tag.
+func VerifSetPageSize(n int) int {
+	old := pageSize
+	pageSize = n
+	maxKeys = (pageSize / 16) - 1
+	oneThird = int(float64(maxKeys) / 3)
+	return old
+}
+
+// VerifMaxKeys returns the current node fan-out.
+func VerifMaxKeys() int { return maxKeys }
